@@ -305,7 +305,7 @@ def reconnect_family(rep, rnd, n):
         elif not stale and 4 not in codes:
             bad = "the second attempt on the same WebSocket rejected the correct digest of its own fresh key (events %s)" % codes
         if bad:
-            rep.violation(bad, scenario=dict(kind="reconnect", previous=fam.jsonable_sc(sc1), next=fam.jsonable_sc(sc2)), family="C10:reconnect")
+            rep.violation(bad, scenario=dict(kind="reconnect", stale=stale, previous=fam.jsonable_sc(sc1), next=fam.jsonable_sc(sc2)), family="C10:reconnect")
     rep.families.append(dict(name="C10:reconnect", cases=cases, rule="two attempts on one WebSocket object (first: Ready / wrong accept / bad Upgrade), the second with a fresh key and a reply carrying the digest of its own key (Ready expected) or of the previous attempt's key (Rejected expected)"))
 
 
@@ -389,11 +389,34 @@ def replay(body):
         b = dict(sc["next"], _ws_object=ws)
         b["steps"] = [tuple(x) for x in b["steps"]]
         r = simnet.run_impl(b)
-        print("events of the second attempt:", fam.event_codes(simnet.canon_trace(r.trace)))
-        print("REPLAY:", body.get("what"))
-        return 0
+        codes = fam.event_codes(simnet.canon_trace(r.trace))
+        print("events of the second attempt:", codes)
+        stale = sc.get("stale")
+        if stale is None:
+            stale = "FIRST attempt" in (body.get("what") or "")
+        bad = bool(r.escaped) or (stale and (4 in codes or 3 not in codes)) or ((not stale) and 4 not in codes)
+        print("REPLAY:", "VIOLATION reproduced" if bad else "property holds on this input")
+        return 1 if bad else 0
+    if sc.get("kind") == "fresh-key":
+        print("in-process check of three successive keys: re-run /venv/bin/python /verif/check.py C10 quick")
+        return 2
     r = simnet.run_impl(sc)
     tr = simnet.canon_trace(r.trace)
+    extra = dict(sock_closed=r.sock.closed if r.sock else None, escaped=r.escaped, request=r.request)
     print("events:", fam.event_codes(tr))
-    print("REPLAY: Ready yielded" if 4 in fam.event_codes(tr) else "REPLAY: no Ready", "(expected: %s)" % body.get("expected"))
-    return 0
+    if "_exp" in sc:
+        res = request_oracle(sc, tr, extra)
+    elif "_expect" in sc and "_kind" in sc:
+        sc.setdefault("_proto", None)
+        sc.setdefault("_ext", False)
+        res = [c for c in reply_oracle(sc, tr, extra) if not known(sc, c)]
+    else:
+        exp = body.get("expected")
+        codes = fam.event_codes(tr)
+        res = []
+        if exp == "ready" and 4 not in codes:
+            res = ["no Ready for a correct reply"]
+        if exp in ("rejected", "protocol_error") and (4 in codes or any(c in (6, 7, 8, 9, 10, 11) for c in codes)):
+            res = ["Ready or message events for an incorrect reply"]
+    print("REPLAY:", ("VIOLATION reproduced: %s" % res[0]) if res else "property holds on this input")
+    return 1 if res else 0
